@@ -504,6 +504,245 @@ SPARSE = {
     "bipartite_spring_layout": s_spring(False, bipartite=True),
     "spectral_clustering": s_spectral_clustering,
 }
+# ---------------------------------------------------------------------------------
+# options regime: rarely used arguments - the networkx pass-through keyword arguments of the seeded layouts (pos for all / some
+# nodes, fixed, iterations, k, threshold, scale, center, dim, weight, method), boundary probabilities as ints / floats / numpy
+# scalars, every existing order, order= given, tuple / array probabilities, many clusters on small symmetric hypergraphs
+# ---------------------------------------------------------------------------------
+SPRING_PARAMS = set(inspect.signature(nx.spring_layout).parameters)
+
+
+def layout_kwargs(rng, keys, allow_weight=True):
+    """(description, build) of pass-through keyword arguments; `keys` = the graph nodes that may carry initial positions."""
+    kw = {}
+    dim = 3 if rng.random() < 0.15 else 2
+    if dim == 3 or rng.random() < 0.2:
+        kw["dim"] = dim
+    pos = None
+    if rng.random() < 0.75 and keys:
+        sub = list(keys) if rng.random() < 0.5 else rng.sample(list(keys), rng.randint(1, len(keys)))
+        pos = {v: [round(rng.uniform(-1, 1), 3) for _ in range(dim)] for v in sub}
+        if rng.random() < 0.5:
+            kw["fixed"] = rng.sample(list(pos), rng.randint(1, len(pos)))
+    if rng.random() < 0.6:
+        kw["iterations"] = rng.choice([0, 1, 2, 5, 20])
+    if rng.random() < 0.3:
+        kw["k"] = rng.choice([0.1, 0.5, 2, np.float64(1.5)])
+    if rng.random() < 0.3:
+        kw["threshold"] = rng.choice([1e-4, 1e-2, 0.3])
+    if "fixed" not in kw:
+        if rng.random() < 0.3:
+            kw["scale"] = rng.choice([1, 2.5, 0.1])
+        if rng.random() < 0.3:
+            kw["center"] = [round(rng.uniform(-2, 2), 2) for _ in range(dim)]
+    if allow_weight and rng.random() < 0.3:
+        kw["weight"] = rng.choice([None, "weight", "w"])
+    if "method" in SPRING_PARAMS and rng.random() < 0.25:
+        kw["method"] = rng.choice(["force", "energy", "auto"])
+        if kw["method"] == "energy" and "gravity" in SPRING_PARAMS and rng.random() < 0.5:
+            kw["gravity"] = rng.choice([0.5, 2.0])
+    as_array = rng.random() < 0.5
+
+    def build():
+        out = dict(kw)
+        if "fixed" in out:
+            out["fixed"] = list(out["fixed"])
+        if "center" in out:
+            out["center"] = list(out["center"])
+        if pos is not None:
+            out["pos"] = {v: (np.array(x, dtype=float) if as_array else tuple(x)) for v, x in pos.items()}
+        return out
+
+    return f"{kw}" + (f", pos={pos}" if pos is not None else ""), build
+
+
+def o_spring(which):
+    def r(rng):
+        cls = "Hypergraph" if which == "bipartite" else rng.choice(["Hypergraph", "Hypergraph", "SimplicialComplex"])
+        desc, build, pool, edges = net_builder(rng, cls=cls)
+        if which == "bipartite":
+            keys = list(range(len(pool) + len(edges)))  # to_bipartite_graph(index=True): nodes first, then edges
+        else:
+            keys = list(pool)
+        kd, kbuild = layout_kwargs(rng, keys, allow_weight=which != "weighted")
+        extra = {"return_phantom_graph": True} if which in ("barycenter", "weighted") and rng.random() < 0.3 else {}
+        return f"H={desc}, {extra} {kd}", lambda: ((build(),), dict(kbuild(), **extra))
+    return r
+
+
+def o_random_layout(rng):
+    desc, build, pool, edges = net_builder(rng)
+    c = [round(rng.uniform(-3, 3), 2), round(rng.uniform(-3, 3), 2)]
+    form = rng.choice(["list", "tuple", "array", "none"])
+    mk = {"list": list, "tuple": tuple, "array": np.array, "none": lambda x: None}[form]
+    return f"H={desc}, center={form}:{c}", lambda: ((build(),), {"center": mk(c)})
+
+
+def symmetric_edges(rng):
+    n = rng.randint(4, 8)
+    kind = rng.choice(["complete-graph", "complete-3-uniform", "cycle", "star", "two-cliques", "sunflower", "one-edge"])
+    nodes = list(range(n))
+    if kind == "complete-graph":
+        e = [[a, b] for a in nodes for b in nodes if a < b]
+    elif kind == "complete-3-uniform":
+        e = [[a, b, c] for a in nodes for b in nodes for c in nodes if a < b < c]
+    elif kind == "cycle":
+        e = [[a, (a + 1) % n] for a in nodes]
+    elif kind == "star":
+        e = [[0, a] for a in nodes[1:]]
+    elif kind == "two-cliques":
+        h = n // 2
+        e = [[a, b] for a in nodes[:h] for b in nodes[:h] if a < b] + [[a, b] for a in nodes[h:] for b in nodes[h:] if a < b] + [[0, n - 1]]
+    elif kind == "sunflower":
+        e = [[0, a, a + 1] for a in range(1, n - 1, 2)] + [[0, n - 1]]
+    else:
+        e = [list(nodes)]
+    return kind, n, e
+
+
+def o_spectral_clustering(rng):
+    kind, n, edges = symmetric_edges(rng)
+    k = rng.randint(3, n - 1) if n > 4 else 3
+    kw = {"max_iter": rng.choice([1, 2, 3, 5, 50])}
+
+    def build():
+        H = xgi.Hypergraph()
+        for e in edges:
+            H.add_edge(list(e))
+        return H
+
+    return f"H={kind} on {n} nodes {edges}, k={k}, {kw}", lambda: ((build(), k), dict(kw))
+
+
+def o_shuffle_hyperedges(rng):
+    desc, build, pool, edges = net_builder(rng, cls=rng.choice(["Hypergraph", "SimplicialComplex"]))
+    order = rng.choice(sorted({len(set(e)) - 1 for e in edges}))  # every existing order gets its turn
+    p = rng.choice([0, 1, 1.0, 0.0, np.float64(1.0)])
+    return f"S={desc}, order={order}, p={p!r}", lambda: ((build(), order, p), {})
+
+
+def o_flag_complex(rng):
+    desc, build = graph_builder(rng)
+    mo = rng.randint(2, 4)
+    ps = [rng.choice([0, 1, 1.0, 0.0, 0.5, np.float64(1.0)]) for _ in range(rng.choice([mo - 1, mo - 1, mo, 1]))]
+    ps = rng.choice([ps, ps, ps, None, []])
+    return f"G={desc}, max_order={mo}, ps={ps!r}", lambda: ((build(),), {"max_order": mo, "ps": None if ps is None else list(ps)})
+
+
+def o_flag_complex_d2(rng):
+    desc, build = graph_builder(rng)
+    p2 = rng.choice([0, 1, 1.0, 0.0, None, np.float64(0.5)])
+    return f"G={desc}, p2={p2!r}", lambda: ((build(),), {"p2": p2})
+
+
+def o_random_hypergraphs(rng):
+    n = rng.randint(3, 8)
+    form = rng.choice(["order-list", "order-array", "order-int", "ps-array", "ps-tuple", "order-list"])
+    if form == "order-int":
+        d, x = rng.randint(1, 3), rng.choice([interior(rng), 1.0, 0.0, np.float64(0.5)])
+        return f"n={n}, ps={x!r}, order={d}", lambda: ((n, x), {"order": d})
+    orders = rng.sample(range(0, 4), rng.randint(1, 3))
+    ps = [rng.choice([interior(rng), interior(rng), 0, 1, np.float64(0.3)]) for _ in orders]
+    if form == "order-array":
+        return f"n={n}, ps=np.array({ps}), order=np.array({orders})", lambda: ((n, np.array(ps, dtype=float)), {"order": np.array(orders)})
+    if form == "ps-array":
+        return f"n={n}, ps=np.array({ps})", lambda: ((n, np.array(ps, dtype=float)), {})
+    if form == "ps-tuple":  # not a list: refused by the argument check, both times alike
+        return f"n={n}, ps={tuple(ps)!r}", lambda: ((n, tuple(ps)), {})
+    return f"n={n}, ps={ps!r}, order={orders}", lambda: ((n, list(ps)), {"order": list(orders)})
+
+
+def o_random_simplicial_complex(rng):
+    N = rng.randint(3, 8)
+    ps = [rng.choice([0, 1, 1.0, interior(rng, 0.05, 0.6), np.float64(0.2)]) for _ in range(rng.randint(1, 3))]
+    mk = rng.choice([list, tuple, lambda x: np.array(x, dtype=float)])
+    return f"N={N}, ps={ps!r} ({mk.__name__ if hasattr(mk, '__name__') else 'array'})", lambda: ((N, mk(ps)), {})
+
+
+def o_random_flag(d2):
+    def r(rng):
+        N = rng.randint(0, 8)
+        p = rng.choice([0, 1, 1.0, 0.0, interior(rng), np.float64(0.5)])
+        kw = {} if d2 else {"max_order": rng.randint(1, 4)}
+        return f"N={N}, p={p!r}, {kw}", lambda: ((N, p), dict(kw))
+    return r
+
+
+def o_watts_strogatz(rng):
+    n, d, k, l, region = c16.lattice_wrap_params(rng)
+    n = max(n, 1)
+    p = rng.choice([0, 1, 1.0, interior(rng), np.float64(0.5)])
+    return f"n={n}, d={d}, k={k}, l={l} ({region}), p={p!r}", lambda: ((n, d, k, l, p), {})
+
+
+def o_uniform_erdos_renyi(rng):
+    multi = rng.random() < 0.5
+    m = rng.randint(1, 3)
+    n = rng.randint(1, 5 if multi else 7)
+    p_type = rng.choice(["prob", "degree"])
+    if p_type == "prob":
+        p = rng.choice([0, 1, 1.0, np.float64(0.5), interior(rng)])
+    else:
+        m = min(m, n)
+        unit = (m * n ** (m - 1)) if multi else (m * c16.comb(n, m) / n)
+        p = rng.choice([0, unit, unit / 2, np.float64(unit / 3)])
+        if abs(c16.er_q(n, m, p, p_type, multi) - 1) < 1e-9 and c16.er_q(n, m, p, p_type, multi) != 1:
+            p = 0
+    return f"n={n}, m={m}, p={p!r}, p_type={p_type!r}, multiedges={multi}", lambda: ((n, m, p), {"p_type": p_type, "multiedges": multi})
+
+
+def o_uniform_HSBM(rng):
+    m = rng.randint(1, 3)
+    nb = rng.randint(1, 3 if m < 3 else 2)
+    sizes = [rng.choice([0, 1, 2, 3, 4]) for _ in range(nb)]
+    p = np.zeros((nb,) * m)
+    for blk in product(range(nb), repeat=m):
+        p[blk] = rng.choice([0.0, 1.0, 1.0, interior(rng)])
+    as_array = rng.random() < 0.5
+    return f"n={sum(sizes)}, m={m}, p={p.tolist()}, sizes={sizes} (array={as_array})", lambda: ((sum(sizes), m, p.copy(), np.array(sizes) if as_array else list(sizes)), {})
+
+
+def o_uniform_HPPM(rng):
+    m = rng.randint(2, 3)
+    n = rng.randint(2, 8)
+    k = rng.choice([0, 1, 0.5, np.float64(1.0)])
+    eps = rng.choice([0, 1, 0.0, 1.0, 0.5])
+    rho = rng.choice([0, 1, 0.5, 0.25, 1.0])
+    return f"n={n}, m={m}, k={k!r}, epsilon={eps!r}, rho={rho!r}", lambda: ((n, m, k, eps), {"rho": rho})
+
+
+def o_configuration_model(rng):
+    k = c16.labelled_degrees(rng, lo=0, hi=3)
+    style = rng.choice(["m=1", "m=len", "zeros", "plain"])
+    m = {"m=1": 1, "m=len": min(len(k), 5)}.get(style, rng.randint(1, min(4, len(k))))
+    if style == "zeros":
+        k = {v: 0 for v in k}
+    return f"k={k}, m={m}", lambda: ((dict(k), m), {})
+
+
+OPTIONS = {
+    "pairwise_spring_layout": o_spring("pairwise"),
+    "barycenter_spring_layout": o_spring("barycenter"),
+    "weighted_barycenter_spring_layout": o_spring("weighted"),
+    "bipartite_spring_layout": o_spring("bipartite"),
+    "random_layout": o_random_layout,
+    "spectral_clustering": o_spectral_clustering,
+    "shuffle_hyperedges": o_shuffle_hyperedges,
+    "flag_complex": o_flag_complex,
+    "flag_complex_d2": o_flag_complex_d2,
+    "fast_random_hypergraph": o_random_hypergraphs,
+    "random_hypergraph": o_random_hypergraphs,
+    "random_simplicial_complex": o_random_simplicial_complex,
+    "random_flag_complex": o_random_flag(False),
+    "random_flag_complex_d2": o_random_flag(True),
+    "watts_strogatz_hypergraph": o_watts_strogatz,
+    "uniform_erdos_renyi_hypergraph": o_uniform_erdos_renyi,
+    "uniform_HSBM": o_uniform_HSBM,
+    "uniform_HPPM": o_uniform_HPPM,
+    "uniform_hypergraph_configuration_model": o_configuration_model,
+}
+LAYOUTS_WITH_PASSTHROUGH = ("pairwise_spring_layout", "barycenter_spring_layout", "weighted_barycenter_spring_layout", "bipartite_spring_layout")
+
 # callables whose sparse regime goes through the skip sampling (`geometric`): at least one edge must come out of most such cases
 SKIP_SAMPLERS = ("fast_random_hypergraph", "uniform_erdos_renyi_hypergraph", "uniform_HSBM", "uniform_HPPM", "chung_lu_hypergraph", "dcsbm_hypergraph")
 
@@ -512,6 +751,8 @@ def recipe_for(q, regime="small"):
     n = short_name(q)
     if regime == "sparse" and n in SPARSE:
         return SPARSE[n]
+    if regime == "options" and n in OPTIONS:
+        return OPTIONS[n]
     return RECIPES.get(n)
 
 
@@ -520,9 +761,9 @@ def pick_seed(rng):
     r = rng.random()
     if r < 0.2:
         return 0, "plain"
-    if r < 0.8:
+    if r < 0.86:
         return rng.choice([1, rng.randrange(100), rng.randrange(2**32), rng.randrange(2**32), 2**32 - 1]), "plain"
-    if r < 0.9:
+    if r < 0.93:
         return rng.choice([np.int64(rng.randrange(2**31)), np.uint32(rng.randrange(2**32)), np.int32(rng.randrange(1000)), np.int64(0)]), "numpy-integer"
     return rng.choice([2**32, 2**63 + rng.randrange(1000), 2**64 + rng.randrange(2**40)]), "above-2**32"
 
@@ -658,9 +899,18 @@ def sched_key(steps):
 ROUNDS = {"quick": 120, "thorough": 18000}
 
 
+SYMMETRIC = {"quick": 800, "thorough": 40000}
+SPECTRAL = "xgi.communities.spectral.spectral_clustering"
+
+
 def plan(tier):
     n = max(1, len(NAMES))
-    return {"repeat": ROUNDS[tier] * n}
+    p = {"repeat": ROUNDS[tier] * n}
+    if SPECTRAL in SEEDED:
+        # spectral_clustering on small symmetric hypergraphs (degenerate spectra) x many seeds: the eigensolver restarts from a random
+        # vector there for about 3 % of the seeds, which the round robin alone would meet only by luck
+        p["symmetric"] = SYMMETRIC[tier]
+    return p
 
 
 def floors(tier):
@@ -703,10 +953,13 @@ def run_case(mon, kind, idx, rng):
         return
     if len(UNPROBED) <= 2:
         mon.note("at-most-2-unprobed")
-    q = NAMES[idx % len(NAMES)]
-    rnd = idx // len(NAMES)
+    if kind == "symmetric":
+        q, rnd, regime = SPECTRAL, 8 + idx, "options"
+    else:
+        q = NAMES[idx % len(NAMES)]
+        rnd = idx // len(NAMES)
+        regime = ("small", "options", "sparse")[rnd % 3]
     name = short_name(q)
-    regime = "sparse" if rnd % 3 == 2 else "small"
     rec = recipe_for(q, regime)
     if rec is None:
         mon.note(f"unprobed:{name}")
@@ -722,7 +975,10 @@ def run_case(mon, kind, idx, rng):
         # a seed that is not a plain int below 2**32 may be refused by random.seed / numpy.random.seed / networkx (TypeError, ValueError):
         # then both executions have to refuse it
         refusals = (ValueError, XGIError) if seed_class == "plain" else (ValueError, XGIError, TypeError)
-        if rnd < 1 + len(ALPHABET):
+        if kind == "symmetric":  # cheap schedules only: plain RNG consumers
+            history = []
+            schedule = make_schedule(rng, q, build, kinds=rng.choice([[], [rng.choice(ALPHABET[:4])]]))
+        elif rnd < 1 + len(ALPHABET):
             history = []
             schedule = make_schedule(rng, q, build, kinds=[] if rnd == 0 else [ALPHABET[rnd - 1]])
         else:
@@ -757,8 +1013,14 @@ def run_case(mon, kind, idx, rng):
             else:
                 mon.note(f"raised-both:{name}:{r1}")
             return
-        mon.note(f"compared:{name}")
+        mon.note(f"compared:{name}" if kind != "symmetric" else "compared-symmetric-spectra")
         mon.note(f"compared-seed-class:{seed_class}")
+        if regime == "options":
+            mon.note(f"compared-options:{name}")
+            if "pos=" in desc:
+                mon.note(f"compared-with-pos:{name}")
+            if "'fixed'" in desc:
+                mon.note(f"compared-with-fixed:{name}")
         if regime == "sparse":
             mon.note(f"compared-sparse:{name}")
             if nonempty(r1):
